@@ -259,6 +259,96 @@ MARGINS["hem1"] = UNIT_MODELS[1]
 UNIT_CMODEL = {"margins": ["merton1", "hem1"], "copula": {"kind": "clayton", "theta": 0.7, "eta": 0.3}}
 
 
+# BALANCED models: the two one-sided jump masses beyond +-h/2 agree (exactly, or to 1e-5 / 1e-8 relative) although the two
+# tails differ, so that the two truncation bounds differ: each bound has to be the root of ITS OWN tail-mass equation, none
+# is the mirror image of the other, and no quantity computed for one side may be re-used for the other.
+#   HEM p = 0.5, eta1 != eta2 at a small h: masses lambda/2 exp(-eta h/2) agree to |eta1 - eta2| h/2 (h = 1e-6: 2.5e-6 resp.
+#       1.5e-5 relative, h = 1e-9: 2.5e-9), bounds -(h/2 + ln(1/(1-p))/eta2) and h/2 + ln(1/(1-p))/eta1;
+#   HEM with p / (1-p) = exp((eta1 - eta2) h/2): masses equal to the last bit at an ORDINARY h (0.1, 0.2);
+#   CGMY y > 1, g != m at a small h: both masses ~ c (h/2)^-y / y, relative difference ~ (m-g) h/2 y/(y-1) (7e-6);
+#   Merton mu_j = 2e-7, VG theta = 1e-7: nearly symmetric measures (masses within 6e-6 / 2e-6 at h = 0.1, 0.2), whose bounds
+#       differ by ~ 3e-7 / 1e-8: visible in the tail share at truncation probability 0.9 (4e-7 / 7e-8), not at 0.99999;
+#   controls: the truly symmetric measures of the ordinary alphabet (Merton mu_j = 0, CGMY g = m) where l = -r is right.
+def _balanced_p(eta1, eta2, h):
+    return 1.0 / (1.0 + math.exp(-(eta1 - eta2) * h / 2))
+
+
+def _hem(p, eta1, eta2, **kw):
+    return dict({"family": "hem", "exp": False, "params": {"sigma": 0.05, "p": p, "eta1": eta1, "eta2": eta2, "intensity": 3.0}}, **kw)
+
+
+BAL_HEM_HALF = _hem(0.5, 25.0, 20.0)
+BAL_HEM_HALF2 = _hem(0.5, 10.0, 40.0)
+BAL_HEM_CLOSE = _hem(0.5, 20.05, 20.0)
+BAL_HEM_01 = _hem(_balanced_p(25.0, 20.0, 0.1), 25.0, 20.0)     # balanced at h = 0.1
+BAL_HEM_02 = _hem(_balanced_p(10.0, 40.0, 0.2), 10.0, 40.0)     # balanced at h = 0.2
+NEAR_SYM_MERTON = {"family": "merton", "exp": False, "params": {"sigma": 0.0, "sigma_j": 0.1, "mu_j": 2e-7, "intensity": 3.0}}
+NEAR_SYM_VG = {"family": "vg", "exp": False, "params": {"sigma": 0.1, "nu": 0.06, "theta": 1e-7}}
+MARGINS["hembal01"] = BAL_HEM_01
+BAL_CMODELS = [
+    {"margins": ["hembal01", "hembal01"], "copula": {"kind": "clayton", "theta": 0.7, "eta": 0.3}},   # ties: min / max over margins
+    {"margins": ["hembal01", "vg"], "copula": {"kind": "clayton", "theta": 0.7, "eta": 0.3}},
+    {"margins": ["cgmy05", "hembal01"], "copula": {"kind": "independent"}},
+    {"margins": ["hem", "vg", "hembal01"], "copula": {"kind": "dependent"}},
+]
+BAL_WRAPPED = [
+    {"wrap": "sde", "model": BAL_HEM_01},
+    {"wrap": "forward", "cmodel": BAL_CMODELS[1]},
+    {"wrap": "forward", "model": BAL_HEM_01},
+]
+BALANCED_RTOL = 1e-5   # input class "one-sided masses beyond h/2 agree to 1e-5 relative" (decided on the density)
+
+
+def _balanced_cases(tier, add, g1):
+    """Grids of every model-based constructor for the BALANCED models (see above)."""
+    thorough = tier == "thorough"
+
+    def small(h, ps=(0.99999, 0.9)):
+        out = [{"kind": "geometric", "h": h, "n_side": 3, "p": ps[0]},
+               {"kind": "credit", "h": h, "a_frac": 0.5, "symmetric": True},
+               {"kind": "credit", "h": h, "a_frac": 0.3, "symmetric": False}]
+        out += [{"kind": "geometric", "h": h, "n_side": 2, "p": p} for p in ps[1:]]
+        return out
+
+    # equal masses at a small h (geometric / credit: few states whatever h is)
+    exp_twin = dict(BAL_HEM_HALF, exp=True, r=0.02, d=0.0, spot=100.0, via="reinit")
+    for m, hs in ((BAL_HEM_HALF, (1e-6, 1e-9)), (BAL_HEM_HALF2, (2e-7,)), (exp_twin, (1e-6,)),
+                  (dict(BAL_HEM_HALF, via="reinit"), (1e-7,))):
+        for h in (hs if not thorough else tuple(hs) + (1e-7, 1e-8)):
+            for g in small(h):
+                add(g, 1, model=m)
+            # the two half-axes of the probability-step grid are built by two separate steppings (no mirror image either)
+            add({"kind": "probability", "h": h, "pmin": 0.2, "depth": 2}, 1, model=m)
+    # uniform grid: refine() of the pinned tree is quadratic in the number of states, so a moderately small h (6e3 states)
+    # with close decay rates: masses within 5e-6, tail share at the mirrored bound 1.029e-5 instead of 1e-5
+    add({"kind": "uniform", "h": 2e-4, "p": 0.99999, "depth": 1}, 1, model=BAL_HEM_CLOSE)
+    if thorough:
+        add({"kind": "uniform", "h": 2e-4, "p": 0.9, "depth": 2}, 1, model=BAL_HEM_CLOSE)
+        add({"kind": "uniform", "h": 1e-4, "p": 0.99999, "depth": 1}, 1, model=dict(BAL_HEM_CLOSE, via="reinit"))
+    # infinite activity, y > 1: only p = 0.99999 (at 0.9 the bound lies within 3h of the origin, where the density is so steep
+    # that the 2e-12 of the library's root search is worth 1e-8 of the tail share)
+    for m, h in ((_cgmy(1.5), 1e-6), (_cgmy(1.2), 5e-7)):
+        for g in small(h, ps=(0.99999,)):
+            add(g, 1, model=m)
+    # equal masses at an ordinary h, nearly symmetric measures: every model-based constructor of the ordinary alphabet
+    for m in (BAL_HEM_01, BAL_HEM_02, NEAR_SYM_MERTON, NEAR_SYM_VG, dict(BAL_HEM_01, via="reinit"),
+              dict(BAL_HEM_02, exp=True, r=0.02, d=0.0, spot=100.0)):
+        for g in g1:
+            add(g, g.get("dim", 1), model=m)
+    # as a margin of a copula model / as the driver of an SDE model
+    indep = {"fixed", "geometric-bounds"}
+    for cm in (BAL_CMODELS if thorough else BAL_CMODELS[:3]):
+        dim = len(cm["margins"])
+        for g in [g for g in A.grid_specs(tier, dim) if g["kind"] not in indep] + _extra_model_grids(tier, dim):
+            add(g, dim, cmodel=cm)
+    for w in (BAL_WRAPPED if thorough else BAL_WRAPPED[:2]):
+        dim = len(w["cmodel"]["margins"]) if w.get("cmodel") else 1
+        gs = [g for g in A.grid_specs(tier, dim) if g["kind"] in ("uniform", "geometric")] \
+            + [g for g in _extra_model_grids(tier, dim) if g["kind"] == "geometric"]
+        for g in gs:
+            add(g, dim, model=w.get("model"), cmodel=w.get("cmodel"), wrap=w["wrap"])
+
+
 def _integral_h_cases(add):
     for h in (1.0, 2.0):
         for m in UNIT_MODELS:
@@ -326,6 +416,9 @@ HIST_MODELS = [
     # error / fall-back paths reached through a history: a heavy-tailed model made ordinary by set-params, and the reverse
     {"family": "hem", "exp": False, "params": HEAVY_HEM},
     {"family": "hem", "exp": False, "params": {}, "alt_params": HEAVY_HEM},
+    # balanced one-sided masses at h = 0.1 (BALANCED models) reached / left through set-params
+    {"family": "hem", "exp": False, "params": {}, "alt_params": BAL_HEM_01["params"]},
+    BAL_HEM_01,
 ]
 HIST_CMODELS = [
     {"margins": ["hem", "vg"], "copula": {"kind": "clayton", "theta": 0.7, "eta": 0.3}},
@@ -463,6 +556,9 @@ def cases(tier):
         dim = len(cm["margins"])
         for g in [g for g in A.grid_specs(tier, dim) if g["kind"] not in indep] + _extra_model_grids(tier, dim):
             add(g, dim, cmodel=cm)
+
+    # balanced models: equal one-sided jump masses, different tails (each bound is the root of its own equation)
+    _balanced_cases(tier, add, g1)
 
     # SDE models driven by a Levy (copula) model: the constructors read the measure of the driver
     for w in HIST_WRAPPED + (HEAVY_WRAPPED if thorough else HEAVY_WRAPPED[:1]):
@@ -681,6 +777,27 @@ class _Tails:
 
     def all(self, b, side):
         return [self(k, b, side) for k in range(len(self.nus))]
+
+
+def _balance_class(tails, k):
+    """Input class of margin k by its two one-sided jump masses beyond +-h/2 (quadrature of the density): 'balanced' when
+    they agree to BALANCED_RTOL relative - then 'symmetric-measure' when the density is even (l = -r is right) or
+    'tails-differ' (the BALANCED models: the two bounds are roots of two different equations) - else 'unbalanced'."""
+    key = ("balance", repr(tails.keys[k]), tails.h)
+    if key not in tails.memo:
+        nu, h, sp = tails.nus[k], tails.h, tuple(tails.splits[k])
+        il, el = O.integrate_density(nu, -math.inf, -h / 2, extra_splits=sp)
+        ir, er = O.integrate_density(nu, h / 2, math.inf, extra_splits=sp)
+        big = max(il, ir)
+        if not (big > 0) or not math.isfinite(big) or (el + er) > 1e-3 * BALANCED_RTOL * big:
+            c = None
+        elif abs(il - ir) > BALANCED_RTOL * big:
+            c = "unbalanced"
+        else:
+            even = all(core.close(float(nu(x)), float(nu(-x)), rtol=1e-12) for x in (0.75 * h, 2.0 * h, 7.0 * h))
+            c = "balanced:" + ("symmetric-measure" if even else "tails-differ")
+        tails.memo[key] = c
+    return tails.memo[key]
 
 
 def _bound_class(tails, h, p, side):
@@ -1042,6 +1159,12 @@ def _prepare(sh, case, model, splits=None, keys=None, memo=None, l_ref=None):
             c = _bound_class(ctx.tails, h, p, side)
             ctx.side_cls[side] = f":{side}-{c}"
             sh.cls(f"{ctx.component}:{side}-{c}")
+        for k in range(len(ctx.nus)):
+            c = _balance_class(ctx.tails, k)
+            if c:
+                sh.cls(f"one-sided-masses:{c}")
+                if c != "unbalanced":
+                    sh.count("grids_for_a_margin_with_" + c.replace(":", "_").replace("-", "_") + "_one_sided_masses")
 
     if g["kind"] == "credit":
         p_, h_ = 0.99999, g["h"]
